@@ -296,6 +296,7 @@ macro_rules! ref_ops {
                 json!({"T": self.name, "idx": u, "id": format!("{:?}", un),
                        "name": $crate::ops::txt(&Unit::name(&un)), "sym": $crate::ops::txt(&Unit::symbol(&un)),
                        "pfx": $crate::ops::opt_s(Unit::si_prefix(&un).map(|p| format!("{:?}", p))),
+                       "pfx_exp": Unit::si_prefix(&un).map(|p| p.exp() as i64).unwrap_or(-999),
                        "scale": enc(sc), "lo": $crate::num::enc_f64(lo), "hi": $crate::num::enc_f64(hi),
                        "is_ref": LinearScaledUnit::is_ref_unit(&un),
                        "as_qty": {"a": enc(Quantity::amount(&q)), "u": format!("{:?}", Quantity::unit(&q))},
@@ -366,6 +367,7 @@ macro_rules! plain_ops {
                 json!({"T": self.name, "idx": u, "id": format!("{:?}", un),
                        "name": $crate::ops::txt(&Unit::name(&un)), "sym": $crate::ops::txt(&Unit::symbol(&un)),
                        "pfx": $crate::ops::opt_s(Unit::si_prefix(&un).map(|p| format!("{:?}", p))),
+                       "pfx_exp": Unit::si_prefix(&un).map(|p| p.exp() as i64).unwrap_or(-999),
                        "as_qty": {"a": enc(Quantity::amount(&q)), "u": format!("{:?}", Quantity::unit(&q))},
                        "from_symbol": $crate::ops::opt_s(<$U as Unit>::from_symbol(&Unit::symbol(&un)).map(|x| format!("{:?}", x))),
                        "display": $crate::ops::txt(&format!("{}", un))})
